@@ -106,8 +106,10 @@ def histories(ctx, drv, pend, G):
                 # --- tracker: in-place writes for the real State; fresh arrays for the stub
                 n = len(state.X)
                 move = np.array([ctx.rng.random() < 0.6 for _ in range(n)])
-                dx = np.array([ctx.rng.uniform(-0.4, 0.4) for _ in range(n)]) * move
-                dy = np.array([ctx.rng.uniform(-0.4, 0.4) for _ in range(n)]) * move
+                # displacements of every size: a particle that moved by a billionth of a cell has moved
+                disp = lambda: ctx.rng.choice([ctx.rng.uniform(-0.4, 0.4), ctx.rng.uniform(-0.4, 0.4), 1e-3, -1e-6, 1e-9, -1e-12])
+                dx = np.array([disp() for _ in range(n)]) * move
+                dy = np.array([ctx.rng.choice([disp(), 0.0]) for _ in range(n)]) * move
                 if container == "real":
                     act = np.ones(n, bool)
                     state["X"][act] = np.clip(state["X"][act] + dx, 0.0, cc - 1.0)
@@ -138,7 +140,11 @@ def histories(ctx, drv, pend, G):
                         was = prev is not None and int(pids[k]) in prev
                         same = was and prev[int(pids[k])] == (xb[k], yb[k])
                         if moved[k]:
-                            pred = "C11.%s.reposition.moved_free_particle" % modname
+                            # the known finding F-C11a (remembered positions alias the State arrays) only explains a
+                            # re-seeded free particle under the real State when no reallocation happened since the
+                            # positions were stored; everywhere else the same symptom is a different defect
+                            aliased = (container == "real" and not realloc)
+                            pred = "C11.%s.reposition.moved_free_particle" % modname + ("" if aliased else ".no_alias")
                             ctx.oracle(same, pred, site,
                                        "pid %d moved by the collision handler although %s" % (int(pids[k]), "the tracker had moved it from %r to %r" % (prev[int(pids[k])], (xb[k], yb[k])) if was else "it did not exist in the previous step"), cs)
                         elif same:
@@ -163,7 +169,7 @@ def histories(ctx, drv, pend, G):
                     prev = {p: v for p, v in prev.items() if p in set(int(q) for q in state.pid)}
 
 
-def swimming(ctx):
+def swimming(ctx, drv=None, pend=None):
     from . import ibmrun
     # lunar eel: horizontal_advect with the moon function forced on
     Me = ibmrun.mod("lunar_eel")
@@ -185,11 +191,17 @@ def swimming(ctx):
         state = real_state(dt=600.0, timestamp=np.datetime64("2020-01-01T00:00:00"), X=X.copy(), Y=Y.copy(), Z=np.full(n, 5.0))
         with RngRecorder(ctx.sub_seed()):
             ibm.update_ibm(grid, state, None)
+        bits = " ".join(str(int(v)) for v in M.ravel())
         for k in range(n):
             stayed = state.X[k] == X[k] and state.Y[k] == Y[k]
             xs, ys = np.array([state.X[k]]), np.array([state.Y[k]])
             ok = stayed or (bool(grid.ingrid(xs, ys)[0]) and bool(grid.atsea(xs, ys)[0]))
             ctx.case(key=("eel", c, k), nontrivial=True); ctx.branch("eel.directed_swim")
+            if drv is not None and drv.available:
+                i_ = int(np.round(X[k])); j_ = int(np.round(Y[k]))
+                cx = X[k] + ibm.speed * ibm.dt * ibm.xs_dx[j_, i_]; cy = Y[k] + ibm.speed * ibm.dt * ibm.ys_dy[j_, i_]
+                pend.append(("swim", drv.ask("swim.eel", F(-0.0 + 0.0), F(cc - 1.0), F(0.0), F(r - 1.0), I(r), I(cc), I(r * cc), bits, F(X[k]), F(Y[k]), F(cx), F(cy)),
+                             (float(state.X[k]), float(state.Y[k]), None), dict(mask=M.tolist(), k=k, module="lunar_eel")))
             ctx.oracle(ok, "C11.lunar_eel.swam_onto_land_or_out", "ladim_plugins/lunar_eel/ibm.py::horizontal_advect",
                        "from (%r,%r) to (%r,%r)" % (X[k], Y[k], state.X[k], state.Y[k]), dict(mask=M.tolist(), k=k))
     # saithe: spread
@@ -208,11 +220,22 @@ def swimming(ctx):
                            egg_buoy=np.full(n, 33.0), temp=np.zeros(n), salt=np.zeros(n), direction=np.zeros(n))
         with RngRecorder(ctx.sub_seed()):
             ibm.update_ibm(g, state, env.forcing())
+        bits = " ".join(str(int(v)) for v in M.ravel())
+        d_after = np.array(state["direction"])
         for k in range(n):
             stayed = state.X[k] == X[k] and state.Y[k] == Y[k]
             xs, ys = np.array([state.X[k]]), np.array([state.Y[k]])
             ok = stayed or (bool(g.ingrid(xs, ys)[0]) and bool(g.atsea(xs, ys)[0]))
             ctx.case(key=("saithe", c, k), nontrivial=True); ctx.branch("saithe.directed_swim")
+            directed = (not np.isnan(d_after[k])) and (state["age"][k] > ibm.hatch_day)
+            if drv is not None and drv.available and directed:
+                om = 1 / 800.0
+                cx = X[k] + 1 * 0.01 * om * ibm.dt * np.cos(d_after[k]); cy = Y[k] + 1 * 0.01 * om * ibm.dt * np.sin(d_after[k])
+                pend.append(("swim", drv.ask("swim.saithe", F(0.0), F(cc - 1.0), F(0.0), F(r - 1.0), I(r), I(cc), I(r * cc), bits, F(X[k]), F(Y[k]), F(cx), F(cy)),
+                             (float(state.X[k]), float(state.Y[k]), bool(state.alive[k])), dict(mask=M.tolist(), k=k, module="saithe")))
+            elif not directed:
+                ctx.oracle(stayed and bool(state.alive[k]), "C11.saithe.undirected_moved", "ladim_plugins/saithe/ibm.py::spread",
+                           "an egg / non-directed larva was moved or retired by the directed swimming", dict(mask=M.tolist(), k=k))
             ctx.oracle(ok, "C11.saithe.swam_onto_land_or_out", "ladim_plugins/saithe/ibm.py::spread",
                        "from (%r,%r) to (%r,%r)" % (X[k], Y[k], state.X[k], state.Y[k]), dict(mask=M.tolist(), k=k))
 
@@ -225,7 +248,7 @@ def run(ctx):
     pend = []
     helpers(ctx, drv, pend, G)
     histories(ctx, drv, pend, G)
-    swimming(ctx)
+    swimming(ctx, drv, pend)
     if drv.available:
         rep = drv.run()
         for kind, j, impl, cs in pend:
@@ -242,6 +265,9 @@ def run(ctx):
                     ctx.branch("reseed_landed_on_same_position")     # re-seeded onto exactly the same coordinates
                     continue
                 ctx.eq("reposition.decision", impl[0], model, cs)
+            elif kind == "swim":
+                got = (unF(t[0]), unF(t[1])) + ((t[2] == "1",) if impl[2] is not None else (None,))
+                ctx.eq("directed_swim.%s" % cs["module"], (impl[0], impl[1], impl[2]), got, cs)
             elif kind == "reseed":
                 ctx.eq_bits("reposition.reseed_x", impl, unF(t[0]), cs)
 
